@@ -1,6 +1,7 @@
 #!/bin/bash
 # corpus.sh [benign|seeded|all] : regression over the stored patch corpus.
-#   CORPUS_ONLY=<regex> restricts the run to matching patch names
+#   CORPUS_ONLY=<regex> restricts the run to matching patch names; CORPUS_PROPS="C04 C12" restricts the checks that are run
+#   (with CORPUS_PROPS a seeded change of another property shows as MISSED: read only the benign lines and the listed properties)
 #   benign/*.diff  behaviour-preserving rewrites -> every check must stay silent (a VIOLATION is a false alarm)
 #   seeded/*/patch.diff  property-breaking changes -> the property's own check must report a VIOLATION
 # Facts of each patched tree are extracted once (sequentially, in a scratch worktree of /repo under /tmp that is removed afterwards), then all 20
@@ -24,7 +25,7 @@ run_one() {
   f=/verif/.cache/pf/$kind-$name.json
   EV=$(mktemp -d)
   out=""
-  for p in C01 C02 C03 C04 C05 C06 C07 C08 C09 C10 C11 C12 C13 C14 C15 C16 C17 C18 C19 C20; do
+  for p in ${CORPUS_PROPS:-C01 C02 C03 C04 C05 C06 C07 C08 C09 C10 C11 C12 C13 C14 C15 C16 C17 C18 C19 C20}; do
     v=$(VERIF_EVIDENCE_DIR=$EV python3 -m sa.run $p --facts $f 2>&1 | grep -E "^VIOLATION" | sed -E 's/.*key=([^ ]+) kind=([^ ]+).*/\1[\2]/' | tr '\n' ' ')
     [ -n "$v" ] && out="$out $v"
   done
@@ -37,4 +38,5 @@ run_one() {
   fi
 }
 export -f run_one
+export CORPUS_PROPS
 printf '%s\n' "${list[@]}" | xargs -P 15 -I{} bash -c 'run_one "{}"' | sort
